@@ -17,12 +17,15 @@
 (*                            typedef'd, enum and pointer types (types     *)
 (*                            printed inside wrapper BODIES: casts,        *)
 (*                            temporaries, return-value wrapping, new T)   *)
+(*                            class hierarchies (virtual base in first /   *)
+(*                            second position, diamond, protected and      *)
+(*                            private bases: up- and downcast functions)   *)
 (* Valid(row) is the tool's own exclusion (interrogate.cxx refuses -fnames *)
 (* with -true-names), the documented one (-do-module "prohibits grouping   *)
 (* several libraries together into a single module") and the one           *)
 (* combination that needs a class from outside the inputs.                 *)
 (*                                                                         *)
-(* The product has 3*3*2^9*2^8 = 1 179 648 points.  The behaviour of this    *)
+(* The product has 3*3*2^9*2^9 = 2 359 296 points.  The behaviour of this    *)
 (* spec is a COVERING ARRAY of strength T (2 = pairwise): every step adds  *)
 (* one valid row that covers at least one still uncovered T-tuple of       *)
 (* (factor, value) pairs (seeded with such a tuple, the other factors      *)
@@ -55,7 +58,8 @@ Factors == << [n |-> "backend",      v |-> 3],   \* 1 -c, 2 -python, 3 -python-n
               [n |-> "f_nested",     v |-> 2],
               [n |-> "f_enumdefault", v |-> 2],
               [n |-> "f_stdstring",  v |-> 2],
-              [n |-> "f_conversions", v |-> 2] >>
+              [n |-> "f_conversions", v |-> 2],
+              [n |-> "f_hierarchy",  v |-> 2] >>
 NF == Len(Factors)
 FV == {<<f, v>> : f \in 1..NF, v \in 1..3} \cap {p \in (1..NF) \X (1..3) : p[2] <= Factors[p[1]].v}
 
